@@ -22,6 +22,7 @@ def dispatch (j : Json) : R Json := do
   let op ← str (← fld j "op")
   match op with
   | "settings.run" => settingsRun j
+  | "settings.world" => settingsWorld j
   | "transport.run" => transportRun j
   | "cache.run" => cacheRun j
   | "url.http_to_https" => urlHttpToHttps j
